@@ -722,8 +722,6 @@ def oracle(case, out):
         if (p['body'] or b'') != (q['body'] or b''):
             return 'body changes on rebuild: %r -> %r' % ((p['body'] or b'')[:40], (q['body'] or b'')[:40])
         hp, hq = p['headers'] or [], q['headers'] or []
-        if case['ptype'] == 2 and len(hq) == len(hp) + 1 and hq[-1] == (b'content-length', b'Content-Length', b'0'):
-            hq = hq[:-1]        # build_response states the (empty) length of a message that had no framing header
         def canon(h):   # a Content-Length value is a number: `05` may come back as `5`
             return [(a, b, (b'%d' % int(c)) if a == b'content-length' and c.isdigit() else c) for a, b, c in h]
         if canon(hp) != canon(hq):
